@@ -59,6 +59,7 @@ def run(facts, rep):
         raise AnalysisBroken('blocked_range not recognised as a range class')
     d1_divisible(facts, rep, ranges)
     d1_grainsize_is_only_compared(facts, rep)
+    d1_split_dimension_is_divisible(facts, rep)
     d2_tiling(facts, rep)
     d3_chunks(facts, rep)
     d4_items(facts, rep)
@@ -764,3 +765,140 @@ def d1_grainsize_is_only_compared(facts, rep):
                'is_divisible() does not compare my_grainsize with size()', key_extra='grain-arith')
     if n < 3:
         raise AnalysisBroken('blocked_range: reads of my_grainsize: %d (expected constructor, accessor, is_divisible, splitting constructors)' % n)
+
+
+# ---------------------------------------------------------------------------------------------------------------
+# D1 (round 5 side remark): the multi-dimensional ranges never split a dimension that is not divisible
+def _dim_key(fn, x, bind):
+    nd = fn.n(fn.strip(x))
+    if nd.get('k') == 'member' and not nd.get('fn'):
+        return nd['n']
+    if nd.get('k') == 'var':
+        return bind.get(nd.get('v'), 'var:%s' % nd.get('n'))
+    return None
+
+
+def _cond_outcomes(facts, fn, x, bind, asg, depth=0):
+    """all (truth, assignment) outcomes of condition x when every is_divisible() of a dimension and every arithmetic comparison is
+    a free boolean (the comparisons are evaluated in floating point and may round either way)"""
+    x = fn.strip(x)
+    nd = fn.n(x)
+    k = nd.get('k')
+    if k == 'unop' and nd['op'] == '!':
+        return [(not t, a) for t, a in _cond_outcomes(facts, fn, nd['sub'], bind, asg, depth)]
+    if k == 'binop' and nd['op'] in ('&&', '||'):
+        out = []
+        for t, a in _cond_outcomes(facts, fn, nd['l'], bind, asg, depth):
+            if (nd['op'] == '&&') != t:
+                out.append((t, a))                 # short circuit
+            else:
+                out.extend(_cond_outcomes(facts, fn, nd['r'], bind, a, depth))
+        return out
+    key = None
+    if k == 'call':
+        d = fn.callee(x) or {}
+        if d.get('n') == 'is_divisible' and nd.get('obj', -1) >= 0:
+            dim = _dim_key(fn, nd['obj'], bind)
+            if dim is None:
+                raise AnalysisBroken('%s: is_divisible() on an expression that is not a dimension' % fn.q)
+            key = ('div', dim)
+        else:
+            g = facts.fns.get(nd.get('fn'))
+            rets = [r for _, _, r in g.stmt_elems(('return',))] if g is not None else []
+            if g is None or len(rets) != 1 or depth > 3:
+                raise AnalysisBroken('%s: condition calls %s, which is not a single-return helper' % (fn.q, d.get('n')))
+            b2 = {}
+            for p, a in zip(g.d.get('params', []), nd.get('a', [])):
+                dk = _dim_key(fn, a, bind)
+                if dk is not None:
+                    b2[p['v']] = dk
+            return _cond_outcomes(facts, g, rets[0]['sub'], b2, asg, depth + 1)
+    elif k == 'binop' and nd['op'] in ('<', '>', '<=', '>='):
+        key = ('cmp', fn.u, x, tuple(sorted(bind.items())))
+    elif k == 'var':
+        uv = Defs(fn).unique_value(x)
+        if uv is not None:
+            return _cond_outcomes(facts, fn, uv, bind, asg, depth + 1)
+        key = ('var', fn.u, nd.get('v'))
+    if key is None:
+        raise AnalysisBroken('%s: condition form not understood at line %s (%s)' % (fn.q, nd.get('ln'), k))
+    if key in asg:
+        return [(asg[key], asg)]
+    out = []
+    for v in (True, False):
+        a2 = dict(asg)
+        a2[key] = v
+        out.append((v, a2))
+    return out
+
+
+def d1_split_dimension_is_divisible(facts, rep):
+    """"a range that is not divisible is never split": blocked_range2d / 3d / blocked_nd_range split ONE dimension, chosen by
+    comparing size/grainsize ratios in floating point.  Above 2^53 the operands round; whatever a comparison then answers, the
+    chosen dimension must be one whose own is_divisible() holds (the splitting constructor is only called on a divisible range:
+    at least one dimension is).  Decided by enumeration: every is_divisible() of a dimension and every ratio comparison is a free
+    boolean; the decision procedure of do_split (helpers inlined) is evaluated for all assignments with at least one divisible
+    dimension, and each blocked_range::do_split it reaches must be on a dimension assigned divisible.  For blocked_nd_range the
+    comparator handed to max_element must never rank a non-divisible dimension above a divisible one."""
+    n = 0
+    for fn in sorted(facts.fns.values(), key=lambda f: f.q):
+        if fn.p not in (D1 + 'blocked_range2d::do_split', D1 + 'blocked_range3d::do_split'):
+            continue
+        splits = {}
+        for pos, s, node, d in calls_named(fn, ('do_split',)):
+            if (d.get('cls') or '').endswith('blocked_range') and node.get('a'):
+                dim = _dim_key(fn, node['a'][0], {})
+                if dim:
+                    splits[pos] = (dim, node.get('ln'))
+        dims = sorted(set(v[0] for v in splits.values()))
+        if len(dims) < 2:
+            raise AnalysisBroken('%s: split sites of the dimensions not found (%s)' % (fn.q, dims))
+        bad = []
+        work = [(fn.entry, {})]
+        seen = 0
+        while work:
+            seen += 1
+            if seen > 20000:
+                raise AnalysisBroken('%s: decision procedure explodes' % fn.q)
+            b, asg = work.pop()
+            blk = fn.blocks[b]
+            for i, e in enumerate(blk['e']):
+                if (b, i) in splits:
+                    dim, ln = splits[(b, i)]
+                    others_all_false = all(asg.get(('div', o)) is False for o in dims if o != dim)
+                    if asg.get(('div', dim)) is not True and not others_all_false:
+                        bad.append('%s split at line %s with %s' % (dim, ln, ', '.join('%s %s' % (k_[1], 'divisible' if v else 'NOT divisible')
+                                                                                      for k_, v in sorted(asg.items(), key=str) if k_[0] == 'div') or 'nothing known'))
+            succ = [x for x in blk['succ']]
+            t = blk.get('term')
+            if len(succ) == 2 and t and 'c' in t and succ[0] is not None and succ[1] is not None:
+                for truth, a2 in _cond_outcomes(facts, fn, t['c'], {}, asg):
+                    work.append((succ[0] if truth else succ[1], a2))
+            else:
+                for x in succ:
+                    if x is not None:
+                        work.append((x, asg))
+        n += 1
+        rep.ob('D1', 'K14', fn, 'the dimension chosen for the split is divisible whatever the (floating point) ratio comparisons answer', not bad,
+               '; '.join(sorted(set(bad))[:3]) + ': for sizes above 2^53 the products round, a tie goes to the first dimension, and a blocked_range that is '
+               'not divisible is split (grain size bound violated)', key_extra='split-dim|' + fn.p)
+    for fn in sorted(facts.fns.values(), key=lambda f: f.q):
+        if fn.kind != 'lambda' or 'blocked_nd_range_impl' not in fn.q or '::do_split' not in fn.q or not fn.q.endswith('operator()'):
+            continue
+        ps = fn.d.get('params', [])
+        rets = [r for _, _, r in fn.stmt_elems(('return',))]
+        if len(ps) != 2 or len(rets) != 1:
+            continue
+        bind = {ps[0]['v']: 'first', ps[1]['v']: 'second'}
+        bad = []
+        for truth, asg in _cond_outcomes(facts, fn, rets[0]['sub'], bind, {}):
+            f_, s_ = asg.get(('div', 'first')), asg.get(('div', 'second'))
+            if truth and s_ is not True:
+                bad.append('ranks `second` above `first` although second is %s' % ('not divisible' if s_ is False else 'not known to be divisible'))
+            if not truth and not (s_ is False or f_ is True):
+                bad.append('does not rank a divisible `second` above a `first` that may be not divisible')
+        n += 1
+        rep.ob('D1', 'K14', fn, 'the comparator that selects the dimension to split never ranks a non-divisible dimension above a divisible one', not bad,
+               '; '.join(sorted(set(bad))) + ': max_element can select a dimension that is not divisible when the rounded ratios tie', key_extra='split-dim-nd')
+    if n < 3:
+        raise AnalysisBroken('multi-dimensional ranges: %d split decision procedures found (expected 2d, 3d, nd)' % n)
